@@ -1,16 +1,24 @@
 """C01 — TOUGH2 data file write/read round trip preserves the whole model.
 
-model      lean/PyTough/Model/T2Sections.lean (23 section readers/writers over three loop combinators),
-           lean/PyTough/Model/T2Data.lean (object, _sections bookkeeping, read()/write(), MESH file, extra-precision file)
-           over the shared record layer Model/Fixed.lean and the tables regenerated into Gen/Sections.lean
-theorems   lean/PyTough/Props/C01.lean
-tie        translator harness/translate/sections.py (+ specs.py), and two correspondence facets on the same cases:
-             t2data_write  real write() vs model write: every produced text file byte for byte, _sections/extra_precision after
-             t2data_read   real t2data(file) vs model read: full attribute dump (reals = double nearest the model's decimal)
-oracle     props/c01_cycle.py: write -> read -> compare with an independently computed canonical form -> write again
-           (equal up to trailing blanks) -> two more cycles byte-identical; on generated objects (all 23 section kinds,
-           both flavours, 3 mesh placements, extra precision off/on/echoed, permuted section order), on the six shipped
-           data files, and on records emitted by an independent Fortran-style writer.
+model      lean/PyTough/Model/T2Sections.lean (the 23 section readers/writers over three loop combinators: untilBlank,
+           read/writeChunks, untilKeyword), lean/PyTough/Model/T2Data.lean (object, _sections bookkeeping, read()/write(),
+           ASCII MESH file, extra-precision companion file), over the shared record layer Model/Fixed.lean, the block-name
+           functions of Model/Names.lean and the tables regenerated into Gen/Sections.lean (+ Gen/Specs.lean)
+theorems   lean/PyTough/Props/C01.lean (30; proofs in Proofs/T2Data*.lean)
+tie        translators harness/translate/sections.py, specs.py, and correspondence facets run on the cases of the oracle:
+             t2data_write   real write() vs model write: every text file produced (main, MESH, .pdat) byte for byte, and
+                            _sections / extra_precision / echo flag after the call
+             t2data_read    real t2data(file, meshfile) vs model read: dump of every attribute (reals = the double nearest
+                            the model's decimal), on generated files, permuted files, the six shipped files (the two
+                            multi-megabyte ones in the thorough tier) and Fortran-written files
+             record_tables  Gen/Sections record tables = preprocess_specification of Gen/Specs (driver self-check)
+oracle     props/c01_cycle.py: write -> read -> compare with an independently computed canonical form (c01_objs.canon:
+           decimal rounding, (A3,I2) names, blank = None) -> write again (equal up to trailing blanks) -> two more cycles
+           byte-identical; on objects generated through the public constructors (c01_gen: all 23 section kinds, both
+           flavours, mesh in file / MESH / MESHA+MESHB, extra precision off / on / echoed, legal section permutations),
+           on a fixed corpus of minimised past findings, on the six shipped data files, and on files written by an
+           independent Fortran-style writer (c01_fortran) whose text fixes what must be read.
+not modelled in Lean: the binary MESHA/MESHB pair (oracle only).
 """
 import os, sys, json, time, shutil, contextlib, io
 from pathlib import Path
@@ -28,6 +36,10 @@ TECHNIQUE = 'Lean 4 proof over an executable model of the section readers/writer
 ASSUMPTIONS = [
     'A-float: CPython float()/% conversions are correctly rounded; the model carries the exact decimal written',
     'ASCII text; struct packing of the binary MESHA/MESHB pair is not modelled (oracle only)',
+    'quantifier "values fit their fields": generated names have the width of their field, primary-variable lists hold no None, '
+    'optional integers are None or >= 1 (0 reads back as None), extra precision is requested only for sections that have content '
+    'and (for subsets) closed under ROCKS <- ELEME <- CONNE; cases whose echoed extra-precision values would be rounded twice '
+    'differently are discarded and counted (unstable)',
 ]
 TRUSTED_EXTRA = ['harness/translate/sections.py dumps section lists, dispatch and record tables from the imported t2data module']
 
